@@ -222,6 +222,9 @@ func scriptText(env *Env, items []Item, upto int, s solverDef, timeoutS int, sta
 			break
 		}
 		if it.Ob == nil {
+			if env.preDecl[it.Text] {
+				continue
+			}
 			sb.WriteString(it.Text)
 			sb.WriteString("\n")
 			continue
@@ -392,6 +395,15 @@ func (v *Verifier) solveScript(fx *FnCtx, sc *Script, n int, filter func(string)
 		}
 		v.mu.Lock()
 		fx.errors = append(fx.errors, "solver warning in "+sc.Trace+": "+e)
+		v.mu.Unlock()
+	}
+	if k := strings.Index(out, "(error "); k >= 0 {
+		e := out[k:]
+		if j := strings.Index(e, "\n"); j >= 0 {
+			e = e[:j]
+		}
+		v.mu.Lock()
+		fx.errors = append(fx.errors, "solver error in "+sc.Trace+": "+e)
 		v.mu.Unlock()
 	}
 	ans := parseAnswers(out)
